@@ -505,6 +505,17 @@ pub fn missing_return_programs() -> Vec<String> {
         out.push(format!("f := (c: bool) -> {t} {{ return; }}; {}", using.replace('@', "f(false)")));
         out.push(format!("f := (xs: [{t}]) -> {t} {{ for x in xs~ {{ return x; }}; return; }}; r := f([]); {}", using.replace('@', "r")));
         out.push(format!("f := (c: bool) -> {t} {{ loop {{ if c {{ return; }}; break; }}; return; }}; r := f(true); {}", using.replace('@', "r")));
+        // a function promising `!` whose body can end, called where the caller's own return is owed
+        for body in ["", "y := 1;", "if c { return stop(c); }", "while c { }", "loop { break; }", "for x in [1]~ { }", "if c { return stop(false); } else { }"] {
+            out.push(format!("stop := (c: bool) -> ! {{ {body} }}; f := (c: bool) -> {t} {{ stop(c); }}; r := f(false); {}", using.replace('@', "r")));
+            out.push(format!("stop := ((c: bool) -> ! {{ {body} }}); f := (c: bool) -> {t} {{ x := stop(c); return x; }}; r := f(false); {}", using.replace('@', "r")));
+            out.push(format!("f := (c: bool) -> {t} {{ stop := (c: bool) -> ! {{ {body} }}; return stop(c); }}; r := f(false); {}", using.replace('@', "r")));
+        }
+    }
+    for body in ["", "y := 1;", "if c { return stop(c); }", "loop { break; }"] {
+        out.push(format!("stop := (c: bool) -> ! {{ {body} }}; x := stop(false); x"));
+        out.push(format!("stop := (c: bool) -> ! {{ {body} }}; x := [stop(false)]; x"));
+        out.push(format!("stop := (c: bool) -> ! {{ {body} }}; x := if false {{ 1 }} else {{ stop(false) }}; x + 1"));
     }
     out
 }
